@@ -556,6 +556,36 @@ def run(repo, chk):
         chk.sample({"rule": "R-C10-1", "inventory": inv[:20]})
         chk.floor("R-C10-1", 5)
 
+        # ------------------------------------------------------------ R-C10-7 nothing the loop reads remembers WHERE the run was started
+        # A simulator attribute that the prologue sets from the clock (sim_time / _prev_sim_time: the time at which THIS run_sim call starts) has, on a continued
+        # run, another value than in an uninterrupted run that passed the same instant -- unless the loop itself keeps it moving (re-assigns it on the way round, as
+        # the rule clock is advanced).  Such an attribute that the loop or a method it calls READS and never re-assigns makes the continued run depend on the
+        # pause point.
+        def clock_text(e):
+            t = unparse(e)
+            return "sim_time" in t
+        loop_reads = set()
+        for fnode in [loop_mod] + [meths[m] for m in sorted(loop_methods)]:
+            in_log = set()           # reads that only feed a log message do not influence the run
+            for c_ in walk(fnode):
+                if isinstance(c_, ast.Call) and (call_name(c_) or "").split(".")[0] in ("logger", "logging", "warnings"):
+                    in_log |= {id(x) for x in ast.walk(c_)}
+            for n_ in walk(fnode):
+                if isinstance(n_, ast.Attribute) and isinstance(n_.ctx, ast.Load) and isinstance(n_.value, ast.Name) and n_.value.id == "self" and id(n_) not in in_log:
+                    loop_reads.add(n_.attr)
+        n7 = 0
+        for a, lst in sorted(pro_defs.items()):
+            clocked = [(m, s_) for m, s_, _g in lst if isinstance(s_, (ast.Assign, ast.AugAssign)) and clock_text(s_.value)]
+            if not clocked:
+                continue
+            n7 += 1
+            moving = a in carried
+            chk.expect(moving or a not in loop_reads, "R-C10-7", "self.%s, set from the clock when run_sim starts, is advanced by the loop itself (or not read by it)" % a, loc(rs, clocked[0][1]),
+                       "set from the time at which this call of run_sim starts and never re-assigned on the way round the loop: a continued run reads another value than an "
+                       "uninterrupted run at the same instant", expected="re-assigned inside the loop (or a method it calls), or unused there",
+                       found="%s; read by the loop: %s; written by the loop: %s" % (norm(clocked[0][1]), a in loop_reads, moving))
+        chk.floor("R-C10-7", 1)
+
         # loop-carried locals of run_sim: assigned in the loop and read in the loop before being assigned on some path -> must not start from a
         # constant that depends on elapsed time; enumerated and classified
         loc_assigned = {}
@@ -980,6 +1010,12 @@ _RI_OLD = ("        if first_step:\n            self._rule_iter = 1\n        els
 _ENC_OLD = ("            if link.status == wntr.network.LinkStatus.Closed:\n                vals.append(0)\n                vals.append(0)\n"
             "            else:\n                vals.append(1)\n                vals.append(1)\n")
 WITNESSES = [
+    dict(name="backtracking-capped-at-the-start-of-this-run", file=CORE, old="        if first_step:  # we don't want to backtrack if the sim time is 0\n            presolve_controls_to_run = [(c, 0) for c, b in presolve_controls_to_run]\n",
+         new="        max_backtrack = self._wn.sim_time - self._start_time\n        presolve_controls_to_run = [(c, min(b, max_backtrack)) for c, b in presolve_controls_to_run]\n",
+         also=[("        trial = -1\n        max_trials = self._wn.options.hydraulic.trials\n", "        self._start_time = self._wn.sim_time\n        trial = -1\n        max_trials = self._wn.options.hydraulic.trials\n")], rule="R-C10-7"),
+    dict(name="start-clock-kept-for-a-log-message-only-preserving", file=CORE, old="        trial = -1\n        max_trials = self._wn.options.hydraulic.trials\n",
+         new="        self._start_time = self._wn.sim_time\n        trial = -1\n        max_trials = self._wn.options.hydraulic.trials\n",
+         also=[("            if not resolve:\n                if not first_step:", "            logger.debug('running since %s', self._start_time)\n            if not resolve:\n                if not first_step:")], silent=True),
     dict(name="passed-time-controls-dropped-at-restart", file=CORE, old="        for c_name, c in self._wn.controls():\n            categorize_control(c)\n",
          new="        for c_name, c in self._wn.controls():\n            if self._wn.sim_time > 0 and getattr(c.condition, '_threshold', None) is not None and c.condition._threshold < self._wn.sim_time:\n                continue\n            categorize_control(c)\n", rule="R-C10-6"),
     dict(name="restart-graph-from-isolation-flags", file=CORE, old="            if link.status == wntr.network.LinkStatus.Closed:\n                vals.append(0)",
